@@ -139,6 +139,96 @@ Proof.
   cbn [vwalk negb andb]. apply rejects_hidden. exact Hh.
 Qed.
 
+(* ------------------------------------------------------------------ invisible state, anywhere *)
+
+Lemma members_keys_nil ms : keys ms = [] -> ms = [].
+Proof. destruct ms; [reflexivity|discriminate]. Qed.
+
+Lemma enc_fields_flat_nil fl d cur fs :
+  forall i vs, flat_fields d cur i fs = [] -> enc_fields fl d cur i fs vs = [].
+Proof.
+  induction fs as [|[fi ft] fs IH]; intros i vs H; [destruct vs; reflexivity|].
+  destruct vs as [|x vs]; [reflexivity|].
+  cbn [flat_fields] in H. apply app_eq_nil in H. destruct H as [H1 H2].
+  cbn [enc_fields]. rewrite (IH _ vs H2), app_nil_r.
+  destruct (expands fi ft) eqn:Ex.
+  - apply members_keys_nil.
+    pose proof (keys_in_names_all ft (expands_struct _ _ Ex) fl (S d) (cur ++ [i]) x) as Hk.
+    rewrite H1 in Hk. cbn [names map] in Hk.
+    destruct (keys (members (enc (Some (fl, S d, cur ++ [i])) ft x))) as [|k r]; [reflexivity|].
+    exfalso. exact (Hk k (or_introl eq_refl)).
+  - destruct (candidate fi); [discriminate|reflexivity].
+Qed.
+
+Lemma hidden_state_serializes_to_empty t : hidden_state t = true -> serializes_to_empty t = true.
+Proof.
+  destruct t; try discriminate. cbn [hidden_state serializes_to_empty]. intros H.
+  apply andb_true_iff in H. destruct H as [Hu Hn]. rewrite Hu. cbn [andb].
+  unfold encode. cbn [zero]. rewrite enc_struct. cbn [ctx_of].
+  rewrite flat_ty_struct in Hn. destruct (flat_fields 0 [] 0 fs) eqn:E; [|discriminate].
+  rewrite flat_ty_struct, E. rewrite enc_fields_flat_nil by exact E. reflexivity.
+Qed.
+
+Lemma rejects_hidden_state top nested t : hidden_state t = true -> vwalk top nested t = false.
+Proof.
+  intros H. pose proof (hidden_state_serializes_to_empty t H) as E.
+  destruct t; try discriminate. rewrite vwalk_struct. rewrite E.
+  cbn [negb]. rewrite andb_false_r. reflexivity.
+Qed.
+
+Lemma flat_fields_all_hidden d cur fs :
+  forallb (fun f => negb (f_exported (fst f)) && negb (f_embedded (fst f))) fs = true ->
+  forall i, flat_fields d cur i fs = [].
+Proof.
+  induction fs as [|[fi ft] fs IH]; intros Hall i; [reflexivity|].
+  cbn [forallb fst] in Hall. apply andb_true_iff in Hall. destruct Hall as [H1 H2].
+  apply andb_true_iff in H1. destruct H1 as [He Hm].
+  apply negb_true_iff in He. apply negb_true_iff in Hm.
+  cbn [flat_fields]. unfold expands, candidate. rewrite He, Hm. cbn [andb app]. apply IH. exact H2.
+Qed.
+
+Lemma hidden_only_hidden_state t : hidden_only t = true -> hidden_state t = true.
+Proof.
+  destruct t; try discriminate. cbn [hidden_only hidden_state]. intros H.
+  apply andb_true_iff in H. destruct H as [Hu Hall]. rewrite Hu. cbn [andb].
+  rewrite flat_ty_struct, (flat_fields_all_hidden 0 [] fs Hall 0). reflexivity.
+Qed.
+
+Fixpoint hidden_fields (fs : list (finfo * ty)) : bool :=
+  match fs with
+  | [] => false
+  | (fi, ft) :: fs' => (negb (f_skip fi) && contains_hidden ft) || hidden_fields fs'
+  end.
+
+Lemma contains_hidden_struct fs :
+  contains_hidden (TStruct fs) = hidden_state (TStruct fs) || hidden_fields fs.
+Proof.
+  cbn [contains_hidden].
+  f_equal; try (induction fs as [|[fi ft] fs IH]; [reflexivity|cbn [hidden_fields]; rewrite <- IH; reflexivity]).
+Qed.
+
+(** any type that contains, in its checkpointed part, a struct whose state is invisible to
+    the encoder is rejected — at the top, nested, in slices, arrays, maps, and behind
+    pointer-receiver JSON methods *)
+Lemma rejects_contains_hidden t :
+  forall top nested, contains_hidden t = true -> vwalk top nested t = false.
+Proof.
+  induction t using ty_ind2; intros top nested Hc; try discriminate Hc.
+  - cbn [contains_hidden] in Hc. cbn [vwalk]. rewrite (IHt false nested Hc). apply andb_false_r.
+  - cbn [contains_hidden] in Hc. cbn [vwalk]. rewrite (IHt false nested Hc). apply andb_false_r.
+  - cbn [contains_hidden] in Hc. cbn [vwalk]. rewrite (IHt false nested Hc). apply andb_false_r.
+  - rewrite contains_hidden_struct in Hc. apply orb_true_iff in Hc. destruct Hc as [Hh|Hf].
+    + apply rejects_hidden_state. exact Hh.
+    + rewrite vwalk_struct. replace (vfields nested fs) with false; [apply andb_false_r|].
+      symmetry. induction fs as [|[fi ft] fs IH]; [discriminate|].
+      inversion H as [|? ? Hft Hrest]; subst. cbn [snd] in Hft.
+      cbn [hidden_fields] in Hf. cbn [vfields]. apply orb_true_iff in Hf. destruct Hf as [Hf|Hf].
+      * apply andb_true_iff in Hf. destruct Hf as [Hs Hcf]. apply negb_true_iff in Hs.
+        rewrite Hs, (Hft false nested Hcf). reflexivity.
+      * rewrite (IH Hrest Hf). apply andb_false_r.
+  - cbn [contains_hidden] in Hc. cbn [vwalk]. apply IHt. exact Hc.
+Qed.
+
 (* ------------------------------------------------------------------ disallowed kinds *)
 
 Lemma rejects_other top nested fs fi k :
@@ -210,6 +300,25 @@ Definition t_hidden : ty :=
   TStruct [(mkF (bs "vals") false false None false false false false, TSlice (TInt I64));
            (mkF (bs "idx") false false None false false false false, TMap MKStr (TInt I64))].
 
+(** state hidden behind an exported json:"-" field, behind an embedded struct without
+    exported fields, and behind pointer-receiver JSON methods, nested in a map of a State *)
+Definition t_dash : ty :=
+  TStruct [(mkF (bs "entries") false false None false false false false, TMap MKStr (TInt I64));
+           (mkF (bs "Dirty") true false None true false false false, TBool)].
+Definition t_embnone : ty :=
+  TStruct [(mkF (bs "None") true true None false false false false, TStruct []);
+           (mkF (bs "order") false false None false false false false, TSlice (TInt I64))].
+Definition t_ptrset : ty :=
+  TStruct [(mkF (bs "Count") true false (Some (bs "count")) false false false false, TInt I64);
+           (mkF (bs "InFlight") true false (Some (bs "in_flight")) false false false false,
+            TMap MKStr (TOpaque (TStruct [(mkF (bs "ids") false false None false false false false, TSlice (TInt I64))])))].
+
+Lemma hidden_state_examples :
+  hidden_state t_dash = true /\ validate_state t_dash = false /\
+  hidden_state t_embnone = true /\ validate_state t_embnone = false /\
+  contains_hidden t_ptrset = true /\ validate_state t_ptrset = false.
+Proof. vm_compute. repeat split. Qed.
+
 Lemma hidden_example : hidden_only t_hidden = true /\ validate_state t_hidden = false.
 Proof. vm_compute. split; reflexivity. Qed.
 
@@ -236,7 +345,7 @@ Proof.
     destruct (wf (c_ty c) v) eqn:Ew; [|reflexivity]. cbn [negb orb].
     rewrite (sound_on_plain (c_state c) (c_ty c) Hacc Hp v Ew) in Hvals.
     apply ov_eqb_some_eq in Hvals. subst. cbn. apply value_eqb_refl.
-  - destruct (hidden_only (c_ty c)) eqn:Eh; [|reflexivity]. cbn [negb orb].
-    unfold validate in Hacc. rewrite (rejects_hidden true (c_state c) _ Eh) in Hacc.
+  - destruct (contains_hidden (c_ty c)) eqn:Eh; [|reflexivity]. cbn [negb orb].
+    unfold validate in Hacc. rewrite (rejects_contains_hidden _ true (c_state c) Eh) in Hacc.
     rewrite <- Hacc. reflexivity.
 Qed.
